@@ -39,7 +39,13 @@ TInit == /\ tid \in 1..NT /\ l = 1 /\ fedq = 0 /\ dack = 0
 \* a model step takes from `net` exactly what the feed events announced
 Taken == Len(net) - Len(net')
 FeedOK == IF Len(net') < Len(net) THEN Taken = fedq /\ fedq' = 0 ELSE UNCHANGED fedq
-ReadStep == HdrLine \/ LenRead \/ CloseRead \/ ChHdr \/ ChBody \/ ChNl \/ Trailer
+\* the model's choice is determined by the announced feed
+ReadStep ==
+  \/ LET j == IF LFIndex(buf) > 0 THEN Len(buf) ELSE Len(buf) + fedq IN
+       j \in LineExtents /\ (HdrLineAt(j) \/ ChHdrAt(j) \/ ChNlAt(j) \/ TrailerAt(j))
+  \/ LET k == IF buf # <<>> THEN 0 ELSE fedq IN
+       k \in PieceChoices /\ (LenReadAt(k) \/ CloseReadAt(k) \/ ChBodyAt(k))
+  \/ LenEOF \/ CloseEOF \/ ChBodyEOF
 
 TReq == /\ Is("req") /\ Step /\ Cur.x = x
         /\ fedq = 0 /\ UNCHANGED <<fedq, dack>>
